@@ -110,7 +110,7 @@ def sp_to_z3(e, env):
 
 def install_oracle(vc, regime, tag):
     """decide undecided comparisons at the regime's sample point and prove regime => decision with z3"""
-    facts, sample = regime["facts"], regime["sample"]
+    facts, sample = [f for f in regime["facts"] if f is not sp.true and f is not True], regime["sample"]
 
     def decide(rel):
         val = rel.subs(sample)
